@@ -91,7 +91,7 @@ def is_self_field(v, name=None):
 def contains(v, pred, depth=0):
     """does the symbolic value contain a sub-value satisfying pred?"""
     v = strip(v)
-    if depth > 12:
+    if depth > 12 or (isinstance(v, tuple) and not v):
         return False
     if pred(v):
         return True
@@ -135,6 +135,10 @@ def input_method_term(facts, fn, wrapped_field='input'):
 # small expression interpreter over symbolic values (used to decide guards semantically rather
 # than by spelling: `x > 63`, `x >= 64`, `!(x < 64)` are the same function)
 
+class ArithPanic(Exception):
+    """the evaluated expression would panic (unsigned underflow, oversized shift, division by zero)"""
+
+
 def eval_expr(v, leaf):
     """evaluate a symbolic value to an int/bool; `leaf(v)` supplies values of atoms (or None)"""
     v = strip(v)
@@ -165,6 +169,12 @@ def eval_expr(v, leaf):
         a, b = eval_expr(v[2], leaf), eval_expr(v[3], leaf)
         if a is None or b is None:
             return None
+        if v[1] == 'Sub' and isinstance(a, int) and isinstance(b, int) and a >= 0 and b >= 0 and a - b < 0:
+            raise ArithPanic('subtraction underflow %d - %d' % (a, b))
+        if v[1] in ('Shl', 'Shr') and isinstance(b, int) and (b < 0 or b >= 128):
+            raise ArithPanic('shift by %d' % b)
+        if v[1] in ('Div', 'Rem') and b == 0:
+            raise ArithPanic('division by zero')
         try:
             return {'Eq': lambda: a == b, 'Ne': lambda: a != b, 'Lt': lambda: a < b, 'Le': lambda: a <= b,
                     'Gt': lambda: a > b, 'Ge': lambda: a >= b, 'And': lambda: bool(a) and bool(b),
@@ -215,3 +225,99 @@ def decoder_fns(facts):
         elif f['ctx'] == 'free' and any(p.endswith(': codec::Input') for p in f.get('preds', [])):
             out.append((f, 'helper'))
     return out
+
+
+# ------------------------------------------------------------------------------------------
+# deterministic abstract execution of a decoder term under a valuation of its atoms
+
+def outcomes(term, leaf, depth=0):
+    """set of exits {'OK','ERR','PANIC'} reachable when the atoms of the branch conditions take the
+    values given by `leaf` (input exhaustion, i.e. the error edge of `?`, is ignored).  Where a
+    condition cannot be evaluated both branches are followed."""
+    res = set()
+    its = items(term)
+
+    def run(idx):
+        i = idx
+        while i < len(its):
+            e = its[i]
+            k = e[0]
+            if k == 'ERR':
+                return {'ERR'}
+            if k == 'PANIC':
+                return {'PANIC'}
+            if k == 'RET':
+                return {'OK'}
+            if k == 'alt':
+                chosen = choose_arms(e, leaf)
+                acc = set()
+                cont = False
+                for x in chosen:
+                    r = outcomes(x, leaf, depth + 1)
+                    if 'OK' in r:
+                        cont = True
+                    acc |= (r - {'OK'})
+                if not cont:
+                    return acc
+                rest = run(i + 1)
+                return acc | rest
+            if k == 'star':
+                r = outcomes(e[2], leaf, depth + 1)
+                if 'OK' not in r:
+                    # the loop may also run zero times
+                    return r | run(i + 1)
+                rest = run(i + 1)
+                return (r - {'OK'}) | rest
+            if k in ('HELPER',):
+                r = outcomes(e[2], leaf, depth + 1)
+                if 'OK' not in r:
+                    return r
+                return (r - {'OK'}) | run(i + 1)
+            if k == 'ONOK':
+                r = outcomes(e[1], leaf, depth + 1)
+                if 'OK' not in r:
+                    return r
+                return (r - {'OK'}) | run(i + 1)
+            i += 1
+        return {'OK'}
+
+    return run(0)
+
+
+def choose_arms(alt, leaf):
+    scrut = alt[1]
+    arms = alt[2]
+    try:
+        return _choose_arms(alt, leaf)
+    except ArithPanic:
+        return [['PANIC', 'arithmetic', None]]
+
+
+def _choose_arms(alt, leaf):
+    scrut = alt[1]
+    arms = alt[2]
+    if isinstance(scrut, tuple) and scrut and scrut[0] == 'if':
+        c = eval_expr(scrut[1], leaf)
+        if c is None:
+            return [x for _, x in arms]
+        want = 'true' if c else 'false'
+        return [x for d, x in arms if d == want]
+    sv = eval_expr(scrut, leaf)
+    if sv is None:
+        return [x for _, x in arms]
+    for d, x in arms:
+        if isinstance(d, tuple) and d[0] == 'pat':
+            if d[2] is None:
+                if d[1] == '_' or d[1].startswith('_'):
+                    return [x]
+                # binding pattern (catch-all with a name)
+                return [x]
+            if any(lo <= sv <= hi for lo, hi in d[2]):
+                return [x]
+        elif isinstance(d, tuple) and d[0] == 'guard':
+            c = eval_expr(d[2], leaf)
+            if c is None:
+                return [x for _, x in arms]
+            if c:
+                return [x]
+    return []
